@@ -1,19 +1,34 @@
 #!/usr/bin/env python3
-"""HAND TOOL (never run by a check): re-derive the status=known entries of known_findings.json for the given properties from
-the failures the bounded enumerators report on the current tree.  Review the result before committing."""
+"""HAND TOOL (never run by a check): derive status=known entries of known_findings.json for the given properties from the
+failures the bounded enumerators report on the current tree.  Review the result before committing.
+
+  tools/regen_known.py C07 C12            re-derive (replace) the known entries from the QUICK tier
+  tools/regen_known.py --add --tier thorough C05
+                                          keep the existing entries and ADD entries for the signatures of that tier which no
+                                          existing entry matches (thorough scopes reach more program shapes / formats)
+"""
 import json, os, re, subprocess, sys
 ROOT = os.path.dirname(os.path.dirname(os.path.abspath(__file__)))
-pids = sys.argv[1:]
-kf = json.load(open(os.path.join(ROOT, "known_findings.json")))
+args = sys.argv[1:]
+add = "--add" in args
+tier = "quick"
+if "--tier" in args:
+    tier = args[args.index("--tier") + 1]
+pids = [a for a in args if re.fullmatch(r"C\d\d", a)]
+kfp = os.path.join(ROOT, "known_findings.json")
+kf = json.load(open(kfp))
 for pid in pids:
-    keep = [f for f in kf["findings"] if not (f["property"] == pid and f["status"] == "known")]
-    kf["findings"] = keep
-    json.dump(kf, open(os.path.join(ROOT, "known_findings.json"), "w"), indent=1)
-    code = ("import json,sys; sys.path.insert(0,%r); import importlib; m=importlib.import_module('rtc.enum_%s'); r=m.run(tier='quick', seed=0); "
-            "print('@@@'+json.dumps({f['signature']: {'case': f.get('case'), 'message': f.get('message')} for f in r['failures']}, default=str))" % (ROOT, pid.lower()))
+    if not add:
+        kf["findings"] = [f for f in kf["findings"] if not (f["property"] == pid and f["status"] == "known")]
+        json.dump(kf, open(kfp, "w"), indent=1)
+    code = ("import json,sys; sys.path.insert(0,%r); import importlib; m=importlib.import_module('rtc.enum_%s'); r=m.run(tier=%r, seed=0); "
+            "print('@@@'+json.dumps({f['signature']: {'case': f.get('case'), 'message': f.get('message')} for f in r['failures']}, default=str))" % (ROOT, pid.lower(), tier))
     env = dict(os.environ, PYTHONPATH="/repo:" + ROOT, PYTHONDONTWRITEBYTECODE="1", PYTHONWARNINGS="ignore")
     out = subprocess.run([os.path.join(ROOT, ".venv/bin/python"), "-c", code], cwd=ROOT, capture_output=True, text=True, env=env).stdout
     sigs = json.loads(out.split("@@@")[-1])
+    if add:
+        have = [re.compile(f["match"]) for f in kf["findings"] if f["property"] == pid and f["status"] == "known"]
+        sigs = {s: d for s, d in sigs.items() if not any(h.search("bounded:" + s) for h in have)}
     new = []
     if pid == "C05":
         groups = {}
@@ -24,11 +39,13 @@ for pid in pids:
             fmts = sorted({x[0] for x in lst})
             new.append({"property": pid, "status": "known", "match": "^bounded:(%s):%s$" % ("|".join(re.escape(x) for x in fmts), re.escape(rest)),
                         "what": "lazy/eager divergence '%s' for formats %s: %s" % (rest, ",".join(fmts), (lst[0][1].get("message") or "")[:200].replace("\n", " ")),
-                        "example_case": lst[0][1].get("case")})
+                        "example_case": lst[0][1].get("case"), "tier": tier})
     else:
         for s, d in sorted(sigs.items()):
             new.append({"property": pid, "status": "known", "match": "^bounded:%s$" % re.escape(s),
-                        "what": "%s: %s" % (s, (d.get("message") or "")[:220].replace("\n", " ")), "example_case": d.get("case")})
+                        "what": "%s: %s" % (s, (d.get("message") or "")[:220].replace("\n", " ")), "example_case": d.get("case"), "tier": tier})
     kf["findings"] += new
-    json.dump(kf, open(os.path.join(ROOT, "known_findings.json"), "w"), indent=1, default=str)
-    print(pid, len(new), "known entries")
+    json.dump(kf, open(kfp, "w"), indent=1, default=str)
+    print(pid, len(new), "known entries", "added" if add else "re-derived", "from tier", tier)
+    for e in new:
+        print("   ", e["match"])
